@@ -131,6 +131,13 @@ func genOrigin(c *ctx, emit func(ev)) {
 			}
 		}
 		inner := variants[len(variants)-1] // (the inner-NUL variant when n >= 2)
+		// the block-length prefixes of a long name (what a comparison over a padded, fixed-size buffer would conflate)
+		if n > 32 {
+			variants = append(variants, append([]byte{}, name[:32*((n-1)/32)]...))
+			if n > 64 {
+				variants = append(variants, append([]byte{}, name[:32]...))
+			}
+		}
 		if n >= 1 && i%5 != 1 && i%5 != 3 {
 			// names a canonicalising implementation would conflate: other letter case, surrounding white space, a
 			// trailing dot - to the issuer these are other origins
